@@ -232,6 +232,8 @@ func (s *refFlow) run1(n *flowNode, ignore bool) int {
 		s.ret, s.retSt = true, s.last
 		if n.kind == flowRet1 {
 			s.retSt = 1
+		} else if s.last < 0 {
+			s.outside = true
 		}
 		return s.retSt
 	case flowCall:
@@ -323,6 +325,12 @@ func (s *refFlow) run1(n *flowNode, ignore bool) int {
 		s.depth++
 		st := 0
 		for i := 0; i < 2; i++ {
+			switch n.kind {
+			case flowWhile:
+				s.last = 0 // the condition succeeded
+			case flowCFor:
+				s.last = -1 // $? after the arithmetic condition is not modelled
+			}
 			st = s.run(n.kids[0], ignore)
 			if s.exited || s.outside || s.ret {
 				break
